@@ -1,9 +1,144 @@
 import Driver.Util
-/-! line protocol for the C19 model (stub: replaced when the property's model is built) -/
+import ScenicModel.Model.Choose
+import ScenicModel.Gen.Choose
+/-!
+Line protocol for the C19 model (uses the *generated* `Gen.chooseConfig`).
+
+  prog <t0> <stmt>*          exact distribution over outcomes of a behavior/compose body started at step t0
+     stmt := W <n> | R <op> <op> | O <k> (<int> <rat>){k} | U <k> <int>{k}
+           | C <form> <k> <item>{k} | S <form> <k> <item>{k}
+     op   := c<int> | p<nat>          form := d (dict, explicit weights) | t (tuple, default weight)
+     item := <id> <rat|-> <prebits> <durdigits>     tables are indexed by min(step, len-1)
+     output: `<status>,<endTime>,<t.kind.val;…|->=<num/den>` entries separated by spaces
+  cidx <u> <k> <w>{k}        index chosen by `random.choices(range(k), cum_weights=accumulate(w))` for raw uniform u
+  config                     the generated constants
+-/
 namespace Driver.C19
-open Driver
+open Driver Scenic.Choose
+
+structure ItemTab where
+  id : Nat
+  pre : List Bool
+  dur : List Nat
+
+def tabGet {α : Type} (d : α) (tb : List α) (t : Nat) : α := tb.getD (min t (tb.length - 1)) d
+
+def mkEnv (tabs : List ItemTab) : Env where
+  pre := fun i t => match tabs.find? (·.id == i) with
+    | some tb => tabGet false tb.pre t
+    | none => false
+  dur := fun i t => match tabs.find? (·.id == i) with
+    | some tb => tabGet 0 tb.dur t
+    | none => 0
+
+def parseOperand (s : String) : Option Operand :=
+  if s.startsWith "c" then (s.drop 1).toString.toInt?.map Operand.const
+  else if s.startsWith "p" then (s.drop 1).toString.toNat?.map Operand.prev
+  else none
+
+def parseBits (s : String) : Option (List Bool) :=
+  s.toList.mapM fun ch => if ch == '1' then some true else if ch == '0' then some false else none
+
+def parseDigits (s : String) : Option (List Nat) :=
+  s.toList.mapM fun ch => if ch.isDigit then some (ch.toNat - 48) else none
+
+/-- parse `k` items; returns items, their tables and the remaining tokens -/
+def parseItems (form : String) : Nat → List String → Option (List Item × List ItemTab × List String)
+  | 0, ts => some ([], [], ts)
+  | k + 1, i :: w :: p :: d :: ts => do
+    let id ← i.toNat?
+    let wt ← if form == "t" then some ((Scenic.Gen.chooseConfig.defaultWeight : Nat) : Rat) else parseRat w
+    let pre ← parseBits p
+    let dur ← parseDigits d
+    let (its, tabs, rest) ← parseItems form k ts
+    some (⟨id, wt⟩ :: its, ⟨id, pre, dur⟩ :: tabs, rest)
+  | _, _ => none
+
+def parseWeighted : Nat → List String → Option (List (Int × Rat) × List String)
+  | 0, ts => some ([], ts)
+  | k + 1, v :: w :: ts => do
+    let z ← v.toInt?
+    let q ← parseRat w
+    let (r, rest) ← parseWeighted k ts
+    some ((z, q) :: r, rest)
+  | _, _ => none
+
+def parseInts : Nat → List String → Option (List Int × List String)
+  | 0, ts => some ([], ts)
+  | k + 1, v :: ts => do
+    let z ← v.toInt?
+    let (r, rest) ← parseInts k ts
+    some (z :: r, rest)
+  | _, _ => none
+
+/-- `fuel` = number of tokens (every statement consumes at least one) -/
+def parseStmts : Nat → List String → Option (List Stmt × List ItemTab)
+  | _, [] => some ([], [])
+  | 0, _ => none
+  | fuel + 1, "W" :: n :: ts => do
+    let k ← n.toNat?
+    let (ss, tabs) ← parseStmts fuel ts
+    some (.wait k :: ss, tabs)
+  | fuel + 1, "R" :: a :: b :: ts => do
+    let lo ← parseOperand a
+    let hi ← parseOperand b
+    let (ss, tabs) ← parseStmts fuel ts
+    some (.draw (.range lo hi) :: ss, tabs)
+  | fuel + 1, "O" :: n :: ts => do
+    let k ← n.toNat?
+    let (opts, rest) ← parseWeighted k ts
+    let (ss, tabs) ← parseStmts fuel rest
+    some (.draw (.weighted opts) :: ss, tabs)
+  | fuel + 1, "U" :: n :: ts => do
+    let k ← n.toNat?
+    let (opts, rest) ← parseInts k ts
+    let (ss, tabs) ← parseStmts fuel rest
+    some (.draw (.uniform opts) :: ss, tabs)
+  | fuel + 1, "C" :: form :: n :: ts => do
+    let k ← n.toNat?
+    let (its, tb, rest) ← parseItems form k ts
+    let (ss, tabs) ← parseStmts fuel rest
+    some (.choose its :: ss, tb ++ tabs)
+  | fuel + 1, "S" :: form :: n :: ts => do
+    let k ← n.toNat?
+    let (its, tb, rest) ← parseItems form k ts
+    let (ss, tabs) ← parseStmts fuel rest
+    some (.shuffle its :: ss, tb ++ tabs)
+  | _, _ => none
+
+def showStatus : Status → String
+  | .done => "done"
+  | .rejected => "rej"
+  | .error => "err"
+
+def showEvent (e : Event) : String := s!"{e.t}.{e.kind}.{e.val}"
+
+def showOutcome (o : Outcome) : String :=
+  let lg := if o.log.isEmpty then "-" else ";".intercalate (o.log.map showEvent)
+  s!"{showStatus o.status},{o.endTime},{lg}"
+
+def showDist (d : Dist Outcome) : String :=
+  " ".intercalate (List.map (fun (op : Outcome × Rat) => s!"{showOutcome op.1}={showRat op.2}") d)
+
+def parseRats : List String → Option (List Rat)
+  | [] => some []
+  | s :: ss => do
+    let q ← parseRat s
+    let r ← parseRats ss
+    some (q :: r)
 
 def handle : List String → String
+  | "prog" :: t0 :: ts =>
+    match t0.toNat?, parseStmts (ts.length + 1) ts with
+    | some t, some (ss, tabs) => "ok " ++ showDist (exec Scenic.Gen.chooseConfig (mkEnv tabs) ss t [])
+    | _, _ => "bad-prog"
+  | "cidx" :: u :: _k :: ws =>
+    match parseRat u, parseRats ws with
+    | some q, some w => s!"ok {choicesIndex w q}"
+    | _, _ => "bad-cidx"
+  | ["config"] =>
+    let c := Scenic.Gen.chooseConfig
+    s!"ok {c.defaultWeight} {c.shortcutLen} {c.shortcutIdx} {c.dropZero}"
   | _ => "bad-op"
 
 end Driver.C19
